@@ -118,7 +118,11 @@ class OneStep(Harness):
         u, L, size, old = (int(inputs[k]) for k in ('used', 'limit', 'size', 'old_size'))
         if max(u, size, old) > 1 << 24 or int(inputs['peak']) != u:
             return []
-        return [{'mode': 'alloc_step', 'limit': L, 'used': u, 'op': inputs['op'], 'size': size, 'old': old, 'align': int(inputs.get('align', 1))}]
+        reqs = [{'mode': 'alloc_step', 'limit': L, 'used': u, 'op': inputs['op'], 'size': size, 'old': old, 'align': int(inputs.get('align', 1))}]
+        if inputs['op'] in ('alloc', 'alloc_zeroed', 'realloc'):
+            # the parent allocator cannot be made to fail on demand; a request of 2^60 bytes under a limit that allows it does fail
+            reqs.append({'mode': 'alloc_step', 'limit': 2 ** 60 + 1024, 'used': 64, 'op': inputs['op'], 'size': 2 ** 60, 'old': 64, 'align': 1})
+        return reqs
 
     def judge(self, inputs, label, obs):
         u, L, size, old = (int(inputs[k]) for k in ('used', 'limit', 'size', 'old_size'))
@@ -143,6 +147,12 @@ class OneStep(Harness):
                 bad.append('usage %d, expected %d' % (u2, u - old + size if ok_ else u))
         if m2 < u2:
             bad.append('peak %d below usage %d' % (m2, u2))
+        if len(obs) > 1 and obs[1].get('outcome') == 'ok':
+            p = obs[1]
+            if p['success']:
+                pass        # the system really had 2^60 bytes: nothing to conclude
+            elif p['used_after'] != 64:
+                bad.append('parent allocator failure (%s of 2^60 bytes within the limit): usage %d afterwards, expected 64' % (op, p['used_after']))
         return bool(bad), 'new(limit); %d bytes live; %s(size=%d, old=%d) -> %s: %s' % (u, op, size, old, o, '; '.join(bad) or 'as specified')
 
 
